@@ -292,6 +292,17 @@ def rule_c(ctx, cr):
               "execute() compares pc with entry_address by %s (expected >=): an error raised by "
               "the first instruction of a direct line is taken for a program error (stack and "
               "continuation kept), or a program error at the boundary for a direct one" % cmpops)
+    if len(cl) == 1:
+        both = [str(c[1])[:80] for c in ex.conds_at(cl[0].bb)
+                if c[0] == "eq" and c[2] is True and
+                ("Stack<T>::is_full" in str(c[1]) or
+                 re.search(r"\.pc Ge .*\.entry_address\)$", str(c[1])))]
+        ctx.check(not both, "C13.c", "execute/error-arm-clear-reasons-are-alternatives", cl[0].span,
+                  "a direct-mode error clears the stack whether or not it is full, and a full "
+                  "stack is cleared wherever the error was raised",
+                  "the stack is cleared only when %s hold together: an error of a direct statement "
+                  "leaves its operands on the stack and keeps a continuation into the direct "
+                  "line, or OUT OF MEMORY inside the program leaves the stack full" % both)
     ctx.check(ok2, "C13.c", "execute/error-arm-clear-is-conditional", ex.span,
               "an error inside the program keeps the stack unless it is full",
               "the error arm clears the value stack on every path: CONT after STOP/END/error "
